@@ -34,6 +34,11 @@ FAMILIES = [
     [R('x{101}'), C('x')],
     # hex escapes written with upper-case digits
     [R('[\\x80-\\xFF]+'), R('\\x4F'), C('a')],
+    # '+' over a group with SEVERAL accepting states (alternatives, an optional tail): every one of them loops back
+    [R('(a|b)+'), C(',')],
+    [R('(ab|c)+'), C(',')],
+    [R('(ab?)+'), C(',')],
+    [R('(_|[a-z])+'), C(',')],
 ]
 
 
